@@ -49,6 +49,7 @@ type result struct {
 	// predSrc: source text of the predicates, for the table program
 	predSrc  []string
 	predSigs map[string]int
+	predCast map[string]string
 	// Strings: the string literals of the lexer and of the parser (their error messages among them)
 	Strings map[string][]string `json:"strings"`
 }
@@ -66,7 +67,7 @@ func main() {
 	}
 	root := args[0]
 	res := result{Priorities: map[string]int{}, Classes: map[string]string{}, Strings: map[string][]string{},
-		Tables: map[string]string{}, predSigs: map[string]int{}}
+		Tables: map[string]string{}, predSigs: map[string]int{}, predCast: map[string]string{}}
 	fset := token.NewFileSet()
 	dirs := map[string][]string{}
 	filepath.Walk(root, func(p string, info os.FileInfo, err error) error {
@@ -185,6 +186,7 @@ func scanFunc(fset *token.FileSet, pkg, file string, fd *ast.FuncDecl, vars map[
 			printer.Fprint(&buf, fset, fd)
 			res.predSrc = append(res.predSrc, buf.String())
 			res.predSigs[fd.Name.Name] = n
+			res.predCast[fd.Name.Name] = fd.Type.Params.List[0].Type.(*ast.Ident).Name
 		}
 	}
 	// character classes of the lexer
@@ -304,7 +306,8 @@ func predArity(fd *ast.FuncDecl) int {
 			types = append(types, id.Name)
 		}
 	}
-	isByte := func(t string) bool { return t == "uint8" || t == "byte" }
+	// a character may also be passed as a rune or an int: the table is over the 256 byte values all the same
+	isByte := func(t string) bool { return t == "uint8" || t == "byte" || t == "rune" || t == "int32" || t == "int" }
 	switch {
 	case len(types) == 1 && isByte(types[0]):
 		return 1
@@ -339,10 +342,10 @@ func evalPredicates(res *result) {
 	b.WriteString("func bit(x bool) string {\n\tif x {\n\t\treturn \"1\"\n\t}\n\treturn \"0\"\n}\n\nfunc main() {\n")
 	for _, n := range names {
 		if res.predSigs[n] == 1 {
-			fmt.Fprintf(&b, "\tfmt.Print(%q, \" \")\n\tfor c := 0; c < 256; c++ {\n\t\tfmt.Print(bit(%s(uint8(c))))\n\t}\n\tfmt.Println()\n", n, n)
+			fmt.Fprintf(&b, "\tfmt.Print(%q, \" \")\n\tfor c := 0; c < 256; c++ {\n\t\tfmt.Print(bit(%s(%s(c))))\n\t}\n\tfmt.Println()\n", n, n, res.predCast[n])
 		} else {
 			for _, fl := range []string{"false", "true"} {
-				fmt.Fprintf(&b, "\tfmt.Print(%q, \" \")\n\tfor c := 0; c < 256; c++ {\n\t\tfmt.Print(bit(%s(uint8(c), %s)))\n\t}\n\tfmt.Println()\n", n+"/"+fl, n, fl)
+				fmt.Fprintf(&b, "\tfmt.Print(%q, \" \")\n\tfor c := 0; c < 256; c++ {\n\t\tfmt.Print(bit(%s(%s(c), %s)))\n\t}\n\tfmt.Println()\n", n+"/"+fl, n, res.predCast[n], fl)
 			}
 		}
 	}
